@@ -8,9 +8,9 @@ import (
 // valPlan is the behaviour of one validator (and of its relayer) in one history.
 type valPlan struct {
 	Name   string `json:"name"`
-	Class  string `json:"class"`  // address byte-pattern class (addr.go)
-	Stake  int64  `json:"stake"`  // ugrain self-delegation at genesis
-	Policy string `json:"policy"` // renew | once | silent | stay | version
+	Class  string `json:"class"`           // address byte-pattern class (addr.go)
+	Stake  int64  `json:"stake"`           // ugrain self-delegation at genesis
+	Policy string `json:"policy"`          // renew | once | silent | stay | version
 	H0     int64  `json:"h0,omitempty"`    // block of the first keep-alive
 	Every  int64  `json:"every,omitempty"` // renew: distance between keep-alives
 	Jump   int    `json:"jump_pct"`        // % of unjail attempts for which block time jumps to the end of the sentence
